@@ -177,18 +177,18 @@ Definition check_cb (c : cb_case) : result :=
 Definition wres_code (r : wresult) : Z :=
   match r with WShort => 0 | WNil => 1 | WErr => 2 | WPanic => 3 end.
 
-Record wrap_case := { w_pol : policy; w_t0 : Z; w_calls : list (Z * houtcome);
+Record wrap_case := { w_pol : policy; w_t0 : Z; w_calls : list (Z * houtcome * ctxstate);
                       w_obs : list (Z * Z * Z * Z * Z) }.
 
 Definition Z5_eqb (a b : Z * Z * Z * Z * Z) : bool :=
   let '(a1, a2, a3, a4, a5) := a in let '(b1, b2, b3, b4, b5) := b in
   (a1 =? b1) && (a2 =? b2) && (a3 =? b3) && (a4 =? b4) && (a5 =? b5).
 
-Fixpoint wrap_run (pol : policy) (c : cb) (calls : list (Z * houtcome)) : list (Z * Z * Z * Z * Z) :=
+Fixpoint wrap_run (pol : policy) (c : cb) (calls : list (Z * houtcome * ctxstate)) : list (Z * Z * Z * Z * Z) :=
   match calls with
   | [] => []
-  | (now, h) :: t =>
-      let '(r, c') := wrap_call pol now h c in
+  | (now, h, cx) :: t =>
+      let '(r, c') := wrap_call_ctx pol now cx h c in
       (wres_code r, wrap_handler_runs r, st_code (c_state c'), c_id c', win_total (c_win c')) :: wrap_run pol c' t
   end.
 
@@ -208,11 +208,19 @@ Definition expect_after_acquire (pol : policy) (now : Z) (h : chk) (flag : bool)
       else (HalfOpen, h_id h)
   end.
 
-Fixpoint prop_wrap_run (pol : policy) (h : chk) (calls : list (Z * houtcome))
+(** number of results the breaker's window must hold right after an admitted call recorded
+    its ONE result at [now]: the window view over the results recorded with the epoch's id
+    (rebuilt by the checker), or 0 when that result closed a half-open breaker (new window) *)
+Definition expect_total (pol : policy) (now : Z) (h1 : chk) (sa : st) (ia : Z) (err : bool) (s' : st) (i : Z) : Z :=
+  if st_eqb s' Closed && negb (i =? ia) then 0 else
+  let kind := match sa with Closed => pol_kind pol | _ => KCount (p_perm pol) end in
+  Z.of_nat (List.length (view kind (sec_of now) ((sec_of now, classify pol err 0) :: h_log h1))).
+
+Fixpoint prop_wrap_run (pol : policy) (h : chk) (calls : list (Z * houtcome * ctxstate))
          (obs : list (Z * Z * Z * Z * Z)) : bool :=
   match calls, obs with
   | [], [] => true
-  | (now, ho) :: t, (code, runs, s, i, _) :: bt =>
+  | (now, ho, _) :: t, (code, runs, s, i, total) :: bt =>
       match st_of_code s with
       | None => false
       | Some s' =>
@@ -222,10 +230,11 @@ Fixpoint prop_wrap_run (pol : policy) (h : chk) (calls : list (Z * houtcome))
           let ok1 := chk_acquire pol now h ob1 in
           let h1 := chk_next now (OAcq now) pol h ob1 in
           if admitted then
+            (* whatever the context state: exactly one result, failure iff error or panic *)
             let err := match ho with HOk => false | _ => true end in
             let o2 := ORec now ia err 0 in
             let '(ok2, h2) := chk_step pol o2 h1 (false, s', i) in
-            ok1 && ok2 && (runs =? 1) &&
+            ok1 && ok2 && (runs =? 1) && (total =? expect_total pol now h1 sa ia err s' i) &&
             (code =? wres_code (wrap_result ho)) && prop_wrap_run pol h2 t bt
           else
             ok1 && (runs =? 0) && st_eqb s' sa && (i =? ia) && prop_wrap_run pol h1 t bt
@@ -233,11 +242,14 @@ Fixpoint prop_wrap_run (pol : policy) (h : chk) (calls : list (Z * houtcome))
   | _, _ => false
   end.
 
-Fixpoint mono_calls {A} (t : Z) (l : list (Z * A)) : bool :=
+Fixpoint mono_calls {A B} (t : Z) (l : list (Z * A * B)) : bool :=
   match l with
   | [] => true
-  | (n, _) :: r => (t <=? n) && mono_calls n r
+  | (n, _, _) :: r => (t <=? n) && mono_calls n r
   end.
+
+Definition w_has_ctx (l : list (Z * houtcome * ctxstate)) : bool :=
+  existsb (fun '(_, _, cx) => match cx with CLive => false | _ => true end) l.
 
 Definition w_has_code (z : Z) (l : list (Z * Z * Z * Z * Z)) : bool := existsb (fun '(code, _, _, _, _) => code =? z) l.
 Definition w_has_state (z : Z) (l : list (Z * Z * Z * Z * Z)) : bool := existsb (fun '(_, _, s, _, _) => s =? z) l.
@@ -249,7 +261,8 @@ Definition check_wrap (c : wrap_case) : result :=
    mono_calls (w_t0 c) (w_calls c) && prop_wrap_run (w_pol c) (chk_init (w_t0 c)) (w_calls c) (w_obs c),
    match w_calls c with
    | [] => 0%N
-   | _ => (1 + bN (w_has_code 0 (w_obs c)) 1 + bN (w_has_code 3 (w_obs c)) 2 + bN (w_has_state 2 (w_obs c)) 4)%N
+   | _ => (1 + bN (w_has_code 0 (w_obs c)) 1 + bN (w_has_code 3 (w_obs c)) 2 + bN (w_has_state 2 (w_obs c)) 4
+             + bN (w_has_ctx (w_calls c)) 8)%N
    end, 0%N).
 
 (** *** group "pool": proxy.ServerPool.handle behind the wrapper
@@ -257,21 +270,21 @@ Definition check_wrap (c : wrap_case) : result :=
     requests: (now, backend outcome, stream body?) for a pool with the breaker and,
     when [q_retry] > 0, a retry policy with that many attempts; observed per request:
     (status, result, servers contacted, breaker state, stateID, window total) *)
-Record pool_case := { q_pol : policy; q_t0 : Z; q_retry : Z; q_reqs : list (Z * backend * bool);
+Record pool_case := { q_pol : policy; q_t0 : Z; q_retry : Z; q_reqs : list (Z * backend * bool * ctxstate);
                       q_obs : list (Z * string * Z * Z * Z * Z) }.
 
 Definition pobs_eqb (a b : Z * string * Z * Z * Z * Z) : bool :=
   let '(a1, a2, a3, a4, a5, a6) := a in let '(b1, b2, b3, b4, b5, b6) := b in
   (a1 =? b1) && String.eqb a2 b2 && (a3 =? b3) && (a4 =? b4) && (a5 =? b5) && (a6 =? b6).
 
-Fixpoint pool_run (pol : policy) (retry : Z) (c : cb) (reqs : list (Z * backend * bool))
+Fixpoint pool_run (pol : policy) (retry : Z) (c : cb) (reqs : list (Z * backend * bool * ctxstate))
   : list (Z * string * Z * Z * Z * Z) :=
   match reqs with
   | [] => []
-  | (now, b, stream) :: t =>
-      let '(r, c') := wrap_call pol now (backend_houtcome b) c in
-      let '(status, res) := pool_result r b in
-      (status, res, pool_contacts retry stream r b, st_code (c_state c'), c_id c', win_total (c_win c'))
+  | (now, b, stream, cx) :: t =>
+      let '(r, c') := wrap_call_ctx pol now cx (backend_houtcome b) c in
+      let '(status, res) := pool_result_ctx cx r b in
+      (status, res, pool_contacts_ctx cx retry stream r b, st_code (c_state c'), c_id c', win_total (c_win c'))
         :: pool_run pol retry c' t
   end.
 
@@ -284,11 +297,11 @@ Fixpoint pool_run (pol : policy) (retry : Z) (c : cb) (reqs : list (Z * backend 
     observed state away from what the contract demands at the next threshold).  A request
     that contacted no server must answer 503 / shortCircuited; one that did must not be
     reported as short-circuited. *)
-Fixpoint prop_pool_run (pol : policy) (h : chk) (reqs : list (Z * backend * bool))
+Fixpoint prop_pool_run (pol : policy) (h : chk) (reqs : list (Z * backend * bool * ctxstate))
          (obs : list (Z * string * Z * Z * Z * Z)) : bool :=
   match reqs, obs with
   | [], [] => true
-  | (now, b, _) :: t, (status, res, contacted, s, i, _) :: bt =>
+  | (now, b, _, _) :: t, (status, res, contacted, s, i, total) :: bt =>
       match st_of_code s with
       | None => false
       | Some s' =>
@@ -300,7 +313,8 @@ Fixpoint prop_pool_run (pol : policy) (h : chk) (reqs : list (Z * backend * bool
           if admitted then
             let err := match b with BOk _ => false | _ => true end in
             let '(ok2, h2) := chk_step pol (ORec now ia err 0) h1 (false, s', i) in
-            ok1 && ok2 && negb (String.eqb res "shortCircuited") && prop_pool_run pol h2 t bt
+            ok1 && ok2 && negb (String.eqb res "shortCircuited") &&
+            (total =? expect_total pol now h1 sa ia err s' i) && prop_pool_run pol h2 t bt
           else
             ok1 && (status =? 503) && String.eqb res "shortCircuited" && (contacted =? 0) &&
             st_eqb s' sa && (i =? ia) && prop_pool_run pol h1 t bt
@@ -308,15 +322,17 @@ Fixpoint prop_pool_run (pol : policy) (h : chk) (reqs : list (Z * backend * bool
   | _, _ => false
   end.
 
-Fixpoint mono_reqs (t : Z) (l : list (Z * backend * bool)) : bool :=
+Fixpoint mono_reqs (t : Z) (l : list (Z * backend * bool * ctxstate)) : bool :=
   match l with
   | [] => true
-  | (n, _, _) :: r => (t <=? n) && mono_reqs n r
+  | (n, _, _, _) :: r => (t <=? n) && mono_reqs n r
   end.
 
 Definition q_has_result (r : string) (l : list (Z * string * Z * Z * Z * Z)) : bool :=
   existsb (fun '(_, x, _, _, _, _) => String.eqb x r) l.
-Definition q_has_stream (l : list (Z * backend * bool)) : bool := existsb (fun '(_, _, st) => st) l.
+Definition q_has_stream (l : list (Z * backend * bool * ctxstate)) : bool := existsb (fun '(_, _, st, _) => st) l.
+Definition q_has_ctx (l : list (Z * backend * bool * ctxstate)) : bool :=
+  existsb (fun '(_, _, _, cx) => match cx with CLive => false | _ => true end) l.
 
 Definition q_retries (c : pool_case) : bool := 0 <? q_retry c.
 
@@ -329,7 +345,7 @@ Definition check_pool (c : pool_case) : result :=
    | [] => 0%N
    | _ => (1 + bN (q_has_result "shortCircuited" (q_obs c)) 1 + bN (q_has_result "failureCode" (q_obs c)) 2
              + bN (q_has_result "serverError" (q_obs c)) 4 + bN (q_has_stream (q_reqs c)) 8
-             + bN (q_retries c) 16)%N
+             + bN (q_retries c) 16 + bN (q_has_ctx (q_reqs c)) 32)%N
    end, 0%N).
 
 (** *** group "lin" (thorough tier): concurrent callers
